@@ -40,3 +40,32 @@ pub fn king_moves(square: Square) -> BitBoard {
 pub fn pawn_attacks(square: Square, color: Color) -> BitBoard {
     BitBoard(refm::pawn_att(refm::bit(square as u8), color as usize))
 }
+
+// Index -> enum conversions: the macro-generated `try_index` is a 64-arm (8-arm)
+// match, which dominates symbolic execution because every square produced by a
+// bitboard iterator goes through it. The stubs below return the same values
+// (proved for every index in c19_coords) through a single discriminant write.
+
+pub fn square_try_index(index: usize) -> Option<Square> {
+    if index < 64 {
+        Some(unsafe { core::mem::transmute::<u8, Square>(index as u8) })
+    } else {
+        None
+    }
+}
+
+pub fn file_try_index(index: usize) -> Option<File> {
+    if index < 8 {
+        Some(unsafe { core::mem::transmute::<u8, File>(index as u8) })
+    } else {
+        None
+    }
+}
+
+pub fn rank_try_index(index: usize) -> Option<Rank> {
+    if index < 8 {
+        Some(unsafe { core::mem::transmute::<u8, Rank>(index as u8) })
+    } else {
+        None
+    }
+}
